@@ -10,6 +10,11 @@
 (* the plane as it was then - whatever the caller has done to the plane since: trimmed the tilt that  *)
 (* fit_tilt recorded on it (TrimTilt edits the recorded Tilt object in place), fitted again, fitted a   *)
 (* shallow copy in place (ShallowFit, which concerns the copy only), replaced the OPD.                 *)
+(* The same holds for a TILT ELEMENT the wavefront passes after the plane (PassVia): the element is    *)
+(* steered by its owner (Steer: attributes assigned, coefficient arrays rebound) or, if it is a         *)
+(* dispersive element, has its coefficient arrays edited in place (EditElem); a held wavefront keeps    *)
+(* the displacement the element had when it passed.  An element's displacement is counted in the same   *)
+(* ramp steps as the plane's tilt (C04: a tilt element is equivalent to the OPD ramp).                  *)
 (* Ramps are integer steps (units of lambda/N per sample), so the effective state is exact.           *)
 EXTENDS Integers, Sequences, TLC, Json, IOUtils
 
@@ -28,8 +33,10 @@ Total(p) == Plus(p.ramp, p.tilt)
 Eff(p) == [base |-> p.base, total |-> Total(p)]
 InBound(v) == v[1] \in -Bound..Bound /\ v[2] \in -Bound..Bound
 
-VARIABLES pl, prog, held        \* held: the effective states captured by the wavefronts the caller keeps
-vars == <<pl, prog, held>>
+VARIABLES pl, prog, held,       \* held: the effective states captured by the wavefronts the caller keeps
+          el                    \* the tilt element: [kind |-> "ang" | "disp", v |-> displacement in ramp steps]
+vars == <<pl, prog, held, el>>
+Steps == Ramps \cup {<<0, 0>>}
 
 Log(act, s, arg, exp) == Append(prog, [act |-> act, s |-> s, arg |-> arg, exp |-> exp])
 Present(s) == pl[s] # Absent
@@ -37,48 +44,68 @@ More == Len(prog) < MaxLen
 
 AddRamp(s, k) == /\ More /\ Present(s) /\ InBound(Plus(Total(pl[s]), k))
                  /\ pl' = [pl EXCEPT ![s].ramp = Plus(@, k)]
-                 /\ prog' = Log("AddRamp", s, k, <<>>) /\ UNCHANGED held
+                 /\ prog' = Log("AddRamp", s, k, <<>>) /\ UNCHANGED <<held, el>>
 \* the same update made by writing INTO the plane's OPD array (no attribute assignment): same meaning
 AddRampIn(s, k) == /\ More /\ Present(s) /\ InBound(Plus(Total(pl[s]), k))
                    /\ pl' = [pl EXCEPT ![s].ramp = Plus(@, k)]
-                   /\ prog' = Log("AddRampInplace", s, k, <<>>) /\ UNCHANGED held
+                   /\ prog' = Log("AddRampInplace", s, k, <<>>) /\ UNCHANGED <<held, el>>
 SetBase(s, b) == /\ More /\ Present(s)
                  /\ pl' = [pl EXCEPT ![s].base = b, ![s].ramp = <<0, 0>>]     \* recorded tilt stays recorded
-                 /\ prog' = Log("SetBase", s, b, <<>>) /\ UNCHANGED held
+                 /\ prog' = Log("SetBase", s, b, <<>>) /\ UNCHANGED <<held, el>>
 FitIn(s)      == /\ More /\ Present(s)
                  /\ pl' = [pl EXCEPT ![s].tilt = Plus(@, pl[s].ramp), ![s].ramp = <<0, 0>>, ![s].nt = @ + 1]
-                 /\ prog' = Log("FitInplace", s, <<>>, <<>>) /\ UNCHANGED held
+                 /\ prog' = Log("FitInplace", s, <<>>, <<>>) /\ UNCHANGED <<held, el>>
 FitCopy(s, t) == /\ More /\ Present(s) /\ s # t
                  /\ pl' = [pl EXCEPT ![t] = [pl[s] EXCEPT !.tilt = Plus(@, pl[s].ramp), !.ramp = <<0, 0>>, !.nt = @ + 1]]
-                 /\ prog' = Log("FitCopy", s, t, <<>>) /\ UNCHANGED held
+                 /\ prog' = Log("FitCopy", s, t, <<>>) /\ UNCHANGED <<held, el>>
 Copy(s, t)    == /\ More /\ Present(s) /\ s # t
                  /\ pl' = [pl EXCEPT ![t] = pl[s]]
-                 /\ prog' = Log("Copy", s, t, <<>>) /\ UNCHANGED held
+                 /\ prog' = Log("Copy", s, t, <<>>) /\ UNCHANGED <<held, el>>
 Observe(s)    == /\ More /\ Present(s)
-                 /\ UNCHANGED <<pl, held>>
+                 /\ UNCHANGED <<pl, held, el>>
                  /\ prog' = Log("Observe", s, <<>>, Eff(pl[s]))
 \* the caller keeps the wavefront that passed plane s now
 Pass(s)       == /\ More /\ Present(s) /\ Len(held) < MaxHeld
                  /\ held' = Append(held, Eff(pl[s]))
-                 /\ UNCHANGED pl
+                 /\ UNCHANGED <<pl, el>>
                  /\ prog' = Log("Pass", s, <<>>, <<>>)
 \* the caller trims the LAST Tilt object fit_tilt recorded on plane s, in place (plane.tilt[-1].x += ...)
 TrimTilt(s, k) == /\ More /\ Present(s) /\ pl[s].nt > 0 /\ InBound(Plus(Total(pl[s]), k))
                   /\ pl' = [pl EXCEPT ![s].tilt = Plus(@, k)]
-                  /\ UNCHANGED held
+                  /\ UNCHANGED <<held, el>>
                   /\ prog' = Log("TrimTilt", s, k, <<>>)
 \* copy.copy(plane).fit_tilt(inplace=True): an edit of the shallow copy, which is then dropped
 ShallowFit(s) == /\ More /\ Present(s)
-                 /\ UNCHANGED <<pl, held>>
+                 /\ UNCHANGED <<pl, held, el>>
                  /\ prog' = Log("ShallowFit", s, <<>>, <<>>)
+\* the owner of the element steers it (attribute assignment / coefficient arrays replaced)
+Steer(k)      == /\ More /\ k # el.v
+                 /\ el' = [el EXCEPT !.v = k]
+                 /\ UNCHANGED <<pl, held>>
+                 /\ prog' = Log("Steer", "-", k, <<>>)
+\* ... or writes into the coefficient arrays of a dispersive element
+EditElem(k)   == /\ More /\ el.kind = "disp" /\ k # el.v
+                 /\ el' = [el EXCEPT !.v = k]
+                 /\ UNCHANGED <<pl, held>>
+                 /\ prog' = Log("EditElem", "-", k, <<>>)
+ViaEff(s)     == [base |-> pl[s].base, total |-> Plus(Total(pl[s]), el.v)]
+\* a wavefront passes plane s and then the element, and is kept
+PassVia(s)    == /\ More /\ Present(s) /\ Len(held) < MaxHeld /\ InBound(ViaEff(s).total)
+                 /\ held' = Append(held, ViaEff(s))
+                 /\ UNCHANGED <<pl, el>>
+                 /\ prog' = Log("PassVia", s, <<>>, <<>>)
+ObserveVia(s) == /\ More /\ Present(s) /\ InBound(ViaEff(s).total)
+                 /\ UNCHANGED <<pl, held, el>>
+                 /\ prog' = Log("ObserveVia", s, <<>>, ViaEff(s))
 \* what a held wavefront shows: the plane as it was when the wavefront passed
 ObserveHeld(w) == /\ More /\ w \in 1..Len(held)
-                  /\ UNCHANGED <<pl, held>>
+                  /\ UNCHANGED <<pl, held, el>>
                   /\ prog' = Log("ObserveHeld", "-", w, held[w])
 
 Init == /\ pl = [s \in Slots |-> IF s = "P" THEN Fresh(0) ELSE Absent]
         /\ prog = <<>>
         /\ held = <<>>
+        /\ el \in [kind : {"ang", "disp"}, v : {<<0, 0>>}]
 DoAddRamp == \E s \in Slots, k \in Ramps : AddRamp(s, k)
 DoAddRampIn == \E s \in Slots, k \in Ramps : AddRampIn(s, k)
 DoSetBase == \E s \in Slots, b \in Bases : SetBase(s, b)
@@ -92,6 +119,7 @@ DoShallowFit == \E s \in Slots : ShallowFit(s)
 DoObserveHeld == \E w \in 1..MaxHeld : ObserveHeld(w)
 Next == DoAddRamp \/ DoAddRampIn \/ DoSetBase \/ DoFitIn \/ DoFitCopy \/ DoCopy \/ DoObserve
         \/ DoPass \/ DoTrim \/ DoShallowFit \/ DoObserveHeld
+        \/ (\E k \in Steps : Steer(k)) \/ (\E k \in Steps : EditElem(k)) \/ (\E s \in Slots : PassVia(s)) \/ (\E s \in Slots : ObserveVia(s))
 Spec == Init /\ [][Next]_vars
 
 \* design-level properties
@@ -105,5 +133,5 @@ HeldFrozen == [][\A w \in 1..Len(held) : w <= Len(held') /\ held'[w] = held[w]]_
 
 \* complete behaviours for replay: the program and the effective state of every plane at its end
 Emit == (Len(prog) = MaxLen) =>
-            PrintT(<<"EMIT", ToJson([prog |-> prog, final |-> [s \in Slots |-> [present |-> Present(s), eff |-> Eff(pl[s])]], held |-> held])>>)
+            PrintT(<<"EMIT", ToJson([kind |-> el.kind, prog |-> prog, final |-> [s \in Slots |-> [present |-> Present(s), eff |-> Eff(pl[s])]], held |-> held])>>)
 =============================================================================
